@@ -112,6 +112,9 @@ def run(chk):
     # 3. refinement of the simple trackers: R1 behaviours through the batch API
     plans = [("batch-d2", dict(depth=2, kind="batch", MaxIdle=0, MaxDets=2 if not quick else 1)),
              ("simple-d3", dict(depth=3, MaxIdle=1, Metric="maha", Thr=1000, MaxDets=1)),
+             # an IoU threshold other than the default: the batch trackers must gate and vote with the configured one, as
+             # the simple trackers do (a weak detection between the two thresholds continues its track)
+             ("batch-d2-thr100", dict(depth=2, kind="batch", MaxIdle=1, MaxDets=1, Thr=100, Confs={900, 200}, Scenes={1})),
              ("batch-sim", dict(depth=40, kind="batch", MaxIdle=1, MaxDets=1, sim=6, simulate={"num": 4 if quick else 20, "depth": 41}))]
     if not quick:
         plans.append(("batch-d3", dict(depth=3, kind="batch", MaxIdle=0, MaxDets=1, Confs={900})))
